@@ -281,7 +281,8 @@ def _blue(v):
     nodes_opts = {
         "hosts": hosts_cfg, "num_services": 2, "num_applications": 2, "num_folders": 2, "num_files": 2, "num_nics": 2,
         "include_num_access": v.get("access", False), "include_nmne": v.get("nmne", True),
-        "file_system_requires_scan": scan, "services_requires_scan": scan, "applications_requires_scan": scan,
+        "file_system_requires_scan": v.get("scan_fs", scan), "services_requires_scan": v.get("scan_svc", scan),
+        "applications_requires_scan": v.get("scan_app", scan),
         "num_ports": 3, "ip_list": [IPS[h] for h in HOSTS], "wildcard_list": ["0.0.0.1", "0.0.0.255"],
         "port_list": ["HTTP", "POSTGRES_SERVER"], "protocol_list": ["ICMP", "TCP", "UDP"], "num_rules": 5,
     }
@@ -298,6 +299,7 @@ def _blue(v):
         {"type": "web-server-404-penalty", "weight": 0.3, "options": {"node_hostname": "web_server", "service_name": "web-server",
                                                                      "sticky": v.get("sticky", True)}},
         {"type": "action-penalty", "weight": 0.2, "options": {"action_penalty": -0.5, "do_nothing_penalty": 0.125}},
+        {"type": "action-penalty", "weight": 0.0, "options": {"action_penalty": -9.0, "do_nothing_penalty": 9.0}},
         {"type": "shared-reward", "weight": 1.0, "options": {"agent_name": "green_1"}},
     ]
     return {
